@@ -185,3 +185,25 @@ PROPERTIES["C20"] = {
                "thorough": {"programs": "8 + 8^2 + 8^3 + 8^4 = 4680, 6 grids"}},
     "deadline": {"quick": 600, "thorough": 3000},
 }
+
+
+PROPERTIES["C15"] = {
+    "engine": "sse",
+    "level_text": "exhaustive enumeration of single-direction flow graphs (every 3-level field on <= 9-node grids, "
+                  "2-level on 16 nodes, every 2-level interior field of a 6x6 raster with 20 outer basins) x masks / "
+                  "base levels x both tree methods x Boruvka low-degree thresholds {16, 1, 2, 3}; the real "
+                  "basin_graph is rebuilt three times on the same object and compared with a reference pass set "
+                  "and a reference minimum spanning forest",
+    "level_note": "minimality is decided on the sorted list of tree edge weights (unique over all minimum spanning "
+                  "forests, so ties cannot raise a false alarm); lowered thresholds are an artificial configuration "
+                  "of the same code: fresh object per world, and worlds where the main loop ends with a non-empty "
+                  "large-degree list are skipped and counted",
+    "technique": SSE_TECH,
+    "harnesses": [{"name": "basin", "families": True}],
+    "rule": "worlds = (grid, mask/base deviation, elevation pattern); evaluations add (value map, tree method, "
+            "threshold); non-trivial = >= 2 basins; distinct = digest of (basin labels, reference tree weights, method)",
+    "assumptions": FLOW_ASSUME[1:3] + ["value maps v0 and v3 (one-ulp steps); thresholds other than 16 only with v0"],
+    "bounds": {"quick": {"grids": "profile 6 8; raster 3x3 3x4(every 9th) 4x4(k=2) 6x6(every 5th interior pattern); 2 meshes"},
+               "thorough": {"grids": "all patterns on 3x4 and 6x6; looped 4x4; k=4 on 3x3; 3 meshes"}},
+    "deadline": {"quick": 600, "thorough": 3000},
+}
